@@ -6,6 +6,7 @@ import (
 	"math/big"
 
 	"filippo.io/edwards25519"
+	"filippo.io/edwards25519/field"
 	"verif/harness/alpha"
 	"verif/harness/core"
 	"verif/harness/ref"
@@ -74,6 +75,42 @@ var subC02 = core.NewSub("C02/grouplaw", func(w *core.Worker, c ptBinCase) *core
 		ret, want = r.Add(p, p), ref.Add(pm, pm)
 	case "SubSelfPtr":
 		ret, want = r.Subtract(p, p), ref.Identity()
+	case "AddRecvP", "SubRecvP", "AddRecvQ", "SubRecvQ", "NegateRecv", "CofactorRecv", "AddAllSame", "SubAllSame":
+		// receiver aliased to an operand: the group law must not depend on it
+		switch c.Op {
+		case "AddRecvP":
+			r, want = p, ref.Add(pm, qm)
+			ret = r.Add(p, q)
+			praw = alpha.PointRaw(p)
+		case "SubRecvP":
+			r, want = p, ref.Sub(pm, qm)
+			ret = r.Subtract(p, q)
+			praw = alpha.PointRaw(p)
+		case "AddRecvQ":
+			r, want = q, ref.Add(pm, qm)
+			ret = r.Add(p, q)
+			qraw = alpha.PointRaw(q)
+		case "SubRecvQ":
+			r, want = q, ref.Sub(pm, qm)
+			ret = r.Subtract(p, q)
+			qraw = alpha.PointRaw(q)
+		case "NegateRecv":
+			r, want = p, ref.Neg(pm)
+			ret = r.Negate(p)
+			praw, qraw = alpha.PointRaw(p), alpha.PointRaw(q)
+		case "CofactorRecv":
+			r, want = p, ref.Mul(big.NewInt(8), pm)
+			ret = r.MultByCofactor(p)
+			praw, qraw = alpha.PointRaw(p), alpha.PointRaw(q)
+		case "AddAllSame":
+			r, want = p, ref.Add(pm, pm)
+			ret = r.Add(p, p)
+			praw, qraw = alpha.PointRaw(p), alpha.PointRaw(q)
+		case "SubAllSame":
+			r, want = p, ref.Identity()
+			ret = r.Subtract(p, p)
+			praw, qraw = alpha.PointRaw(p), alpha.PointRaw(q)
+		}
 	default:
 		panic("bad op")
 	}
@@ -94,14 +131,16 @@ var subC02 = core.NewSub("C02/grouplaw", func(w *core.Worker, c ptBinCase) *core
 func init() { register("C02", "exploration", runC02) }
 
 func runC02(ctx *core.Ctx) {
-	ctx.Rule("all ordered pairs of alphabet P (E[8], multiples of B, torsion+multiples; closed under negation and translation by (0,-1)) x representations (lambda in {1,2,-1,sqrt(-1),generic} x limb forms) for Add/Subtract; all P x all 8 representations for Negate/MultByCofactor and same-pointer Add/Subtract; compared through Bytes() and ExtendedCoordinates() with the affine addition law. distinct_nontrivial = distinct result points")
+	ctx.Rule("all ordered pairs of alphabet P (E[8], multiples of B, torsion+multiples; closed under negation and translation by (0,-1)) x representations (lambda in {1,2,-1,sqrt(-1),generic} x limb forms) for Add/Subtract with a fresh receiver, the receiver aliased to the first and to the second operand; all P x all 8 representations for Negate/MultByCofactor and same-pointer Add/Subtract; compared through Bytes() and ExtendedCoordinates() with the affine addition law. distinct_nontrivial = distinct result points")
 	ctx.Assume("math/big is correct", "points outside alphabet P are not decided")
 	pf := pointIns(ctx.Quick(), formsFor(ctx, 3, 5))
 	n := len(pf)
-	ops := []string{"Add", "Subtract"}
-	subC02.Run(ctx, n*n*2, func(i int) ptBinCase { return ptBinCase{ops[i%2], pf[(i/2)/n], pf[(i/2)%n]} })
+	ops := []string{"Add", "Subtract", "AddRecvP", "SubRecvP", "AddRecvQ", "SubRecvQ"}
+	subC02.Run(ctx, n*n*len(ops), func(i int) ptBinCase {
+		return ptBinCase{ops[i%len(ops)], pf[(i/len(ops))/n], pf[(i/len(ops))%n]}
+	})
 	all := pointIns(ctx.Quick(), []int{0, 1, 2, 3, 4, 5, 6, 7})
-	un := []string{"Negate", "MultByCofactor", "AddSelfPtr", "SubSelfPtr"}
+	un := []string{"Negate", "MultByCofactor", "AddSelfPtr", "SubSelfPtr", "NegateRecv", "CofactorRecv", "AddAllSame", "SubAllSame"}
 	subC02.Run(ctx, len(all)*len(un), func(i int) ptBinCase { return ptBinCase{un[i%len(un)], all[i/len(un)], all[i/len(un)]} })
 	ctx.Extra("points", len(alpha.Points(ctx.Quick())))
 }
@@ -142,6 +181,55 @@ var subC06 = core.NewSub("C06/equal", func(w *core.Worker, c ptBinCase) *core.Fa
 	return nil
 })
 
+// Difference-targeted representations: the second operand is scaled so that
+// the cross-multiplied difference X1*Z2 - X2*Z1 (or the Y one) is exactly a
+// chosen value delta - every single bit and limb-boundary pattern - which is
+// what a comparison that ignores some bits of the difference would miss.
+type ptDiffCase struct {
+	P     Hex    `json:"p"`
+	Q     Hex    `json:"q"`
+	Coord string `json:"coord"` // "x" or "y"
+	Delta Hex    `json:"delta"` // field value (LE) the cross difference is made equal to
+}
+
+var subC06Diff = core.NewSub("C06/targeted-difference", func(w *core.Worker, c ptDiffCase) *core.Fail {
+	pm, ok1 := ref.Decode(c.P)
+	qm, ok2 := ref.Decode(c.Q)
+	if !ok1 || !ok2 {
+		panic("harness: bad point in ptDiffCase")
+	}
+	delta := ref.FromLE(c.Delta)
+	// P with Z=1; Q with Z=lambda: X1*Z2 - X2*Z1 = lambda*(x1 - x2)
+	var d *big.Int
+	if c.Coord == "x" {
+		d = ref.FSub(pm.X, qm.X)
+	} else {
+		d = ref.FSub(pm.Y, qm.Y)
+	}
+	if d.Sign() == 0 {
+		return nil
+	}
+	lam := ref.FDiv(delta, d)
+	if lam.Sign() == 0 {
+		return nil
+	}
+	p := alpha.MakePoint(pm, 0)
+	co := alpha.PointCoords(qm, lam)
+	var e [4]field.Element
+	for i := range e {
+		e[i] = alpha.ElemCanon(co[i])
+	}
+	q := alpha.MakePointFromElems(&e[0], &e[1], &e[2], &e[3])
+	if got := p.Equal(q); got != 0 {
+		return core.Failf("Equal(%s, %s scaled by lambda so that the %s cross-difference is %x) = %d want 0", c.P, c.Q, c.Coord, delta, got)
+	}
+	if got := q.Equal(p); got != 0 {
+		return core.Failf("Equal(%s scaled so that the %s cross-difference is %x, %s) = %d want 0", c.Q, c.Coord, delta, c.P, got)
+	}
+	w.Distinct("nontrivial:targeted-differences", append([]byte(c.Coord), c.Delta...))
+	return nil
+})
+
 func init() { register("C06", "exploration", runC06) }
 
 func runC06(ctx *core.Ctx) {
@@ -151,6 +239,35 @@ func runC06(ctx *core.Ctx) {
 	n := len(pf)
 	subC06.Run(ctx, n*n, func(i int) ptBinCase { return ptBinCase{"Equal", pf[i/n], pf[i%n]} })
 	subC06.Run(ctx, n, func(i int) ptBinCase { return ptBinCase{"SelfPtr", pf[i], pf[i]} })
+	// targeted differences: every single-bit delta and limb-corner deltas, for
+	// the hard negative pairs (P,-P) [same y] and (P, -(P+(0,-1))) [same x] and a generic pair
+	var deltas []*big.Int
+	for k := uint(0); k < 255; k++ {
+		deltas = append(deltas, new(big.Int).Lsh(big.NewInt(1), k))
+	}
+	for i := 0; i < latticeSize(3); i++ {
+		v := ref.FRed(alpha.LimbValue(latticeAt(3, i)))
+		if v.Sign() != 0 {
+			deltas = append(deltas, v)
+		}
+	}
+	for _, k := range []uint{32, 64, 96, 128, 160, 192, 224} {
+		deltas = append(deltas, new(big.Int).Sub(new(big.Int).Lsh(big.NewInt(1), k), big.NewInt(1)), new(big.Int).Lsh(big.NewInt(0xffffffff), k))
+	}
+	B := ref.Base()
+	T := ref.Torsion()
+	g := ref.Add(T[1], ref.Mul(alpha.GenericScalar, B))
+	pairs := [][2]ref.Pt{{B, ref.Neg(B)}, {B, ref.Neg(ref.Add(B, T[4]))}, {g, ref.Neg(g)}, {g, ref.Neg(ref.Add(g, T[4]))}, {B, g}, {T[1], T[3]}}
+	var dc []ptDiffCase
+	for _, pr := range pairs {
+		pe, qe := ref.Encode(pr[0]), ref.Encode(pr[1])
+		for _, d := range deltas {
+			for _, co := range []string{"x", "y"} {
+				dc = append(dc, ptDiffCase{Hex(pe[:]), Hex(qe[:]), co, le32(d)})
+			}
+		}
+	}
+	subC06Diff.RunList(ctx, dc)
 	if ctx.DistinctCount("equal-outcomes") != 2 || ctx.DistinctCount("nontrivial:negatives-sharing-a-coordinate") < 8 {
 		ctx.Vacuous("C06: vacuous coverage (no hard negatives)")
 	}
